@@ -65,11 +65,19 @@ const (
 )
 
 var (
-	errDial    = errors.New("dial failed")
-	errReject  = errors.New("response rejected")
-	errGetBody = errors.New("GetBody failed")
-	errWrapEOF = fmt.Errorf("transport wrapper: %w", io.EOF)
+	errDial        = errors.New("dial failed")
+	errReject      = errors.New("response rejected")
+	errGetBody     = errors.New("GetBody failed")
+	errWrapEOF     = fmt.Errorf("transport wrapper: %w", io.EOF)
+	errClientCause = errors.New("the caller's own reason for cancelling")
 )
+
+// tempReject is a validator verdict that calls itself temporary: still a verdict (C11: "returns at once without retrying when the response validator fails")
+type tempReject struct{}
+
+func (tempReject) Error() string   { return "response rejected for now" }
+func (tempReject) Temporary() bool { return true }
+func (tempReject) Timeout() bool   { return true }
 
 type clSeen struct {
 	hdrPresent bool
@@ -112,7 +120,9 @@ func runClient(t *byteTable, b *clBeh, seg func(n int) []int) (o clObs) {
 			o.panicked = r
 		}
 	}()
-	ctx, cancel := context.WithCancel(context.Background())
+	// the request's context carries a cause of its own: Connect reports the context's error, not the cause
+	ctx, cancelCause := context.WithCancelCause(context.Background())
+	cancel := func() { cancelCause(errClientCause) }
 	defer cancel()
 	var mu sync.Mutex
 
@@ -150,6 +160,7 @@ func runClient(t *byteTable, b *clBeh, seg func(n int) []int) (o clObs) {
 
 	attempt := 0
 	rejectNext := false
+	rejectTemp := false
 	cbCancel := false  // the next dispatched event's callback cancels the context
 	rejectedReads := 0 // Read calls on the body of a response the validator rejected
 	rt := rtFunc(func(q *http.Request) (*http.Response, error) {
@@ -181,8 +192,9 @@ func runClient(t *byteTable, b *clBeh, seg func(n int) []int) (o clObs) {
 		case "cancel_do":
 			cancel()
 			return nil, ctx.Err()
-		case "reject", "stream":
-			rejectNext = st.O == "reject"
+		case "reject", "reject_temp", "stream":
+			rejectNext = st.O != "stream"
+			rejectTemp = st.O == "reject_temp"
 			in := t.expand(st.Body)
 			rd := &segReader{s: in, cuts: seg(len(in))}
 			switch st.End {
@@ -205,7 +217,7 @@ func runClient(t *byteTable, b *clBeh, seg func(n int) []int) (o clObs) {
 				rd.onEnd = cancel
 			}
 			var body io.Reader = rd
-			if st.O == "reject" {
+			if st.O != "stream" {
 				body = readerFunc(func(p []byte) (int, error) { rejectedReads++; return rd.Read(p) })
 			}
 			return &http.Response{StatusCode: 200, Header: http.Header{"Content-Type": {"text/event-stream"}}, Body: io.NopCloser(body), Request: q}, nil
@@ -229,6 +241,9 @@ func runClient(t *byteTable, b *clBeh, seg func(n int) []int) (o clObs) {
 	c := &sse.Client{
 		HTTPClient: &http.Client{Transport: rt},
 		ResponseValidator: func(*http.Response) error {
+			if rejectNext && rejectTemp {
+				return fmt.Errorf("checked the response: %w", tempReject{})
+			}
 			if rejectNext {
 				return errReject
 			}
@@ -321,7 +336,7 @@ func checkClient(res *Result, t *byteTable, b *clBeh, o clObs, f clFocus, segNam
 			case "ctx":
 				ok = errors.Is(o.err, context.Canceled)
 			case "validator":
-				ok = isCE && errors.Is(o.err, errReject)
+				ok = isCE && (errors.Is(o.err, errReject) || errors.As(o.err, new(tempReject)))
 			case "nogetbody":
 				ok = errors.Is(o.err, sse.ErrNoGetBody)
 			case "getbodyerr":
@@ -511,23 +526,39 @@ func cmdClientElapsed(args []string) {
 		name                string
 		bo                  sse.Backoff
 		minRetries, maxSeen int
+		attemptTakes        time.Duration // every attempt takes this long to fail (a dial / handshake timeout)
 	}
 	scs := []sc{
-		{"ample budget: all retries happen", sse.Backoff{InitialInterval: 100 * time.Microsecond, Multiplier: 1, Jitter: -1, MaxRetries: 3, MaxElapsedTime: 10 * time.Second}, 3, 3},
-		{"40ms x2 within 50ms: the second retry must not start", sse.Backoff{InitialInterval: 40 * time.Millisecond, Multiplier: 2, Jitter: -1, MaxElapsedTime: 50 * time.Millisecond}, 0, 1},
-		{"5ms x1 within 22ms", sse.Backoff{InitialInterval: 5 * time.Millisecond, Multiplier: 1, Jitter: -1, MaxElapsedTime: 22 * time.Millisecond}, 0, 4},
-		{"5ms x1.5 jittered within 30ms", sse.Backoff{InitialInterval: 5 * time.Millisecond, Multiplier: 1.5, Jitter: 0.25, MaxElapsedTime: 30 * time.Millisecond}, 0, 6},
-		{"no limit: MaxRetries alone decides", sse.Backoff{InitialInterval: 200 * time.Microsecond, Multiplier: 1, Jitter: -1, MaxRetries: 5}, 5, 5},
+		{"ample budget: all retries happen", sse.Backoff{InitialInterval: 100 * time.Microsecond, Multiplier: 1, Jitter: -1, MaxRetries: 3, MaxElapsedTime: 10 * time.Second}, 3, 3, 0},
+		{"40ms x2 within 50ms: the second retry must not start", sse.Backoff{InitialInterval: 40 * time.Millisecond, Multiplier: 2, Jitter: -1, MaxElapsedTime: 50 * time.Millisecond}, 0, 1, 0},
+		{"5ms x1 within 22ms", sse.Backoff{InitialInterval: 5 * time.Millisecond, Multiplier: 1, Jitter: -1, MaxElapsedTime: 22 * time.Millisecond}, 0, 4, 0},
+		{"5ms x1.5 jittered within 30ms", sse.Backoff{InitialInterval: 5 * time.Millisecond, Multiplier: 1.5, Jitter: 0.25, MaxElapsedTime: 30 * time.Millisecond}, 0, 6, 0},
+		{"no limit: MaxRetries alone decides", sse.Backoff{InitialInterval: 200 * time.Microsecond, Multiplier: 1, Jitter: -1, MaxRetries: 5}, 5, 5, 0},
+		// the time spent inside failing attempts counts: 20 ms per attempt + 5 ms waits within 60 ms leave room for 2 retries
+		{"slow failing attempts: 20ms each, 5ms x1 within 60ms", sse.Backoff{InitialInterval: 5 * time.Millisecond, Multiplier: 1, Jitter: -1, MaxElapsedTime: 60 * time.Millisecond}, 0, 3, 20 * time.Millisecond},
 	}
 	for rep := 0; rep < 3; rep++ {
 		for _, s := range scs {
 			var waits []time.Duration
+			var late []string
 			attempts := 0
+			t0 := time.Now()
 			c := &sse.Client{
-				HTTPClient:        &http.Client{Transport: rtFunc(func(*http.Request) (*http.Response, error) { attempts++; return nil, errDial })},
+				HTTPClient: &http.Client{Transport: rtFunc(func(*http.Request) (*http.Response, error) {
+					attempts++
+					time.Sleep(s.attemptTakes)
+					return nil, errDial
+				})},
 				ResponseValidator: sse.NoopValidator,
 				Backoff:           s.bo,
-				OnRetry:           func(_ error, d time.Duration) { waits = append(waits, d) },
+				OnRetry: func(_ error, d time.Duration) {
+					waits = append(waits, d)
+					// "no retry starts once MaxElapsedTime would be exceeded": the series began after t0, so its elapsed time is at most ours
+					// (15 ms of slack for the time between the library's own reading of the clock and this callback)
+					if el := time.Since(t0); s.bo.MaxElapsedTime > 0 && el+d > s.bo.MaxElapsedTime+15*time.Millisecond {
+						late = append(late, fmt.Sprintf("retry %d granted %v into the series with a wait of %v", len(waits), el, d))
+					}
+				},
 			}
 			ctx, cancel := context.WithTimeout(context.Background(), 5*time.Second)
 			q, _ := http.NewRequestWithContext(ctx, http.MethodGet, "http://verif.invalid/", http.NoBody)
@@ -542,6 +573,9 @@ func cmdClientElapsed(args []string) {
 			}
 			if len(waits) > s.maxSeen {
 				res.violate(fmt.Sprintf("%s: %d retries were made, at most %d fit MaxElapsedTime/MaxRetries", s.name, len(waits), s.maxSeen), "client:elapsed:exceeded", d)
+			}
+			if len(late) > 0 && len(waits) > s.maxSeen {
+				res.violate(fmt.Sprintf("%s: %s: beyond MaxElapsedTime %v", s.name, late[0], s.bo.MaxElapsedTime), "client:elapsed:late", d)
 			}
 			if len(waits) < s.minRetries {
 				res.violate(fmt.Sprintf("%s: only %d retries were made, at least %d fit", s.name, len(waits), s.minRetries), "client:elapsed:too-few", d)
